@@ -382,7 +382,7 @@ def inline_calls(facts, t, depth=8, memo=None, stop=()):
         r = t
     elif tag == "call":
         args = tuple(inline_calls(facts, a, depth, memo, stop) for a in t[2])
-        r = ("call", t[1], args, t[3])
+        r = ("call", t[1], args) + tuple(t[3:])
         if depth > 0 and isinstance(t[1], str) and t[1] in facts.fns and t[1] not in stop:
             key = (id(facts), t[1])
             if key not in _sum_cache:
@@ -396,7 +396,7 @@ def inline_calls(facts, t, depth=8, memo=None, stop=()):
     elif tag == "field":
         r = mk_field(inline_calls(facts, t[1], depth, memo, stop), t[2], t[2] if isinstance(t[2], int) else None)
     elif tag == "ref":
-        r = ("ref", t[1], inline_calls(facts, t[2], depth, memo, stop), t[3])
+        r = ("ref", t[1], inline_calls(facts, t[2], depth, memo, stop)) + tuple(t[3:])
     else:
         r = tuple(inline_calls(facts, x, depth, memo, stop) if isinstance(x, tuple) else x for x in t)
     memo[t] = r
@@ -561,6 +561,9 @@ def ieval(ft, t, env, assume=None, _nested=False):
             return int(lo <= xv <= hi)
         raise Undetermined("contains")
     if tag == "call" and isinstance(t[1], str) and (t[1].endswith("::eq") or t[1].endswith("::ne")) and len(t[2]) == 2:
+        if "PartialEq" not in t[1]:
+            # std::ptr::eq and friends compare identities, not values: nothing the compiler knows decides them
+            raise Undetermined("%s is not a value comparison" % t[1])
         # equality of two values the compiler / the environment knows completely (tables, enum rows)
         a, b = _cval(ft, t[2][0], env, assume, _nested), _cval(ft, t[2][1], env, assume, _nested)
         if a is None or b is None:
@@ -1182,11 +1185,28 @@ def seq_nth(ft, src, depth=0):
                 return None
             body = closure_subst_caps(clos[3], fcl.return_term(rbs[0]))
             return subst_terms(body, {("param", 2): r[0]}), r[1]
+        if short == "skip" and len(x[2]) == 2 and const_int(x[2][1]) is not None and const_int(x[2][1]) >= 0:
+            # the k-th item after skipping n is item k+n of the source (the count is only used where the source is
+            # known to have at least n items; a shorter source simply yields nothing)
+            r = seq_nth(ft, x[2][0], depth + 1)
+            if r is None:
+                return None
+            n_ = ("const", "int", const_int(x[2][1]), None, "usize")
+            item = subst_terms(r[0], {KSYM: ("bin", "Add", KSYM, n_)})
+            return item, (r[1] if r[1] is None or r[1] == ("inf",) else ("bin", "Sub", r[1], n_))
+        if short == "cycle" and len(x[2]) == 1:
+            # endless repetition of a collection: item k is element k mod len; the count is the marker ("inf",)
+            r = seq_nth(ft, x[2][0], depth + 1)
+            if r is None or r[0][0] != "elem" or r[0][2] != KSYM:
+                return None
+            ln = r[1] if r[1] is not None else ("call", "len", (r[0][1],), None)
+            return ("elem", r[0][1], ("bin", "Rem", KSYM, ln)), ("inf",)
         if short == "zip" and len(x[2]) == 2:
             r1, r2 = seq_nth(ft, x[2][0], depth + 1), seq_nth(ft, x[2][1], depth + 1)
             if r1 is None or r2 is None:
                 return None
-            return ("agg", "tuple", "", (r1[0], r2[0]), ()), r1[1]
+            cnt = r2[1] if r1[1] == ("inf",) else r1[1]
+            return ("agg", "tuple", "", (r1[0], r2[0]), ()), cnt
         if short in ("index", "index_mut") and len(x[2]) == 2:
             rng = x[2][1]
             while rng[0] in ("ref", "deref"):
@@ -1197,9 +1217,9 @@ def seq_nth(ft, src, depth=0):
                     base = base[2] if base[0] == "ref" else base[1]
                 return ("elem", strip_site(base), ("bin", "Add", rng[3][0], KSYM)), ("bin", "Sub", rng[3][1], rng[3][0])
             return None
-    if x[0] in ("phi", "param", "escaped") or (x[0] == "call" and isinstance(x[1], str)):
+    if x[0] in ("phi", "param", "escaped", "field") or (x[0] == "call" and isinstance(x[1], str)):
         ty = ft.tyof(x) or ""
-        if "Vec<" in ty or ty.lstrip("&").startswith("["):
+        if "Vec<" in ty or ty.lstrip("&").lstrip("mut ").startswith("["):
             return ("elem", strip_site(x), KSYM), None
     return None
 
